@@ -1028,6 +1028,57 @@ Section Steps.
   Qed.
 End Steps.
 
+(* ================================================================ a pixel that moves has two costed neighbours *)
+
+Section PixelMoved.
+  Variable K : consts.
+  Hypothesis KW : consts_wf K = true.
+  Variables (me : method) (m : measure) (dmin dmax : Q) (s : Z).
+  Hypothesis Hs : (0 < s)%Z.
+
+  (* If the step moves a valid pixel, the costs of the two samples around the pixel's sample are
+     numbers.  With per-pixel disparity intervals (grids) the costs outside a pixel's own interval are
+     NaN (C02/C09), so for a received disparity that is a sample the refined one lies between two
+     samples of the pixel's OWN interval, at most half a sample from the received one. *)
+  Lemma pixel_moved_costed cv d mask d' c' mask' :
+    is_valid K mask -> cv_fits dmin dmax s cv -> in_interval dmin dmax d ->
+    loop_pixel K me m dmin dmax s cv (Some d) mask = POk (Some d') c' mask' ->
+    ~ d' == d ->
+    exists c0 c1 c2, cost_at cv (sample_index dmin s d - 1) = Some c0
+                     /\ cost_at cv (sample_index dmin s d) = Some c1
+                     /\ cost_at cv (sample_index dmin s d + 1) = Some c2
+                     /\ is_extremum (kind_of m) c0 c1 c2
+                     /\ ~ near_end dmin dmax s d
+                     /\ mask' = mask.
+  Proof.
+    intros V F I R NE.
+    pose proof (pixel_char K KW me m dmin dmax s Hs cv d mask V F I) as C. cbv zeta in C. rewrite R in C.
+    destruct (cost_at cv (sample_index dmin s d)) as [c1|] eqn:EC.
+    2:{ assert (E : d' = d) by congruence. subst d'. exfalso. apply NE. reflexivity. }
+    destruct C as [[N C]|(N & Rg & sh & co & fl & M & C)].
+    - assert (E : d' = d) by congruence. subst d'. exfalso. apply NE. reflexivity.
+    - assert (Ed : d' = Qred (d + sh / inject_Z s)) by congruence.
+      assert (Em : mask' = Z.lor mask fl) by congruence. clear C.
+      assert (ST : forall oc0 oc2, run_method K me m oc0 c1 oc2 = MOk sh co fl ->
+                   (oc0 = None \/ oc2 = None \/
+                    exists c0 c2, oc0 = Some c0 /\ oc2 = Some c2 /\ ~ is_extremum (kind_of m) c0 c1 c2) -> False).
+      { intros oc0 oc2 M' H. rewrite (run_method_stop K me m oc0 c1 oc2 H) in M'.
+        assert (Z0 : sh = 0) by congruence.
+        apply NE. rewrite Ed, Z0, Qred_correct. unfold Qdiv. ring. }
+      destruct (cost_at cv (sample_index dmin s d - 1)) as [c0|] eqn:E0;
+        [|exfalso; apply (ST _ _ M); left; reflexivity].
+      destruct (cost_at cv (sample_index dmin s d + 1)) as [c2|] eqn:E2;
+        [|exfalso; apply (ST _ _ M); right; left; reflexivity].
+      destruct (is_extremum_dec (kind_of m) c0 c1 c2) as [EX|EX];
+        [|exfalso; apply (ST _ _ M); right; right; exists c0, c2; repeat split; assumption].
+      exists c0, c1, c2. split; [reflexivity|]. split; [reflexivity|]. split; [reflexivity|].
+      split; [exact EX|]. split; [exact N|].
+      destruct (run_method_go K me m c0 c1 c2 EX) as (sh' & co' & G). rewrite G in M.
+      assert (Zf : fl = 0%Z) by congruence. rewrite Em, Zf.
+      apply Z.lor_0_r.
+  Qed.
+End PixelMoved.
+
 (* on the sampling grid, "less than a whole sample from an end" is "on an end" *)
 Lemma inject_Z_lt1 z : inject_Z z < 1 <-> (z < 1)%Z.
 Proof. unfold Qlt, inject_Z. cbn. lia. Qed.
